@@ -864,6 +864,12 @@ static int _fetch_and_process_packet(OggVorbis_File *vf,
           vf->current_serialno=vf->os.serialno;
           vf->current_link++;
           link=0;
+
+          /* _fetch_headers() has already submitted every page it read
+             to the stream state, including the one it left in og;
+             submitting that page a second time would be reported as a
+             hole at the start of the new link */
+          continue;
         }
       }
     }
